@@ -101,6 +101,11 @@ func fixedAcks() []input {
 		{Name: "ack-fixed-http-post-codes", Mode: "ack", Ack: &ackIn{Tool: "nsq_to_http", Method: "post", ToolMode: "round-robin", Scripts: []string{"2435B2C2"}, NMsg: 10, Seed: 2, MaxInFl: 1}},
 		{Name: "ack-fixed-http-get-codes", Mode: "ack", Ack: &ackIn{Tool: "nsq_to_http", Method: "get", ToolMode: "hostpool", Scripts: []string{"2425B2"}, NMsg: 10, Seed: 3, MaxInFl: 1}},
 		{Name: "ack-fixed-http-all", Mode: "ack", Ack: &ackIn{Tool: "nsq_to_http", Method: "post", ToolMode: "all", Scripts: []string{"22", "25", "2"}, NMsg: 6, Seed: 4, MaxInFl: 1}},
+		// mode all, several destinations, partial failures on one of them (status and close; a closed
+		// reused connection makes net/http re-send a GET to the same destination)
+		{Name: "ack-fixed-http-all-get-partial", Mode: "ack", Ack: &ackIn{Tool: "nsq_to_http", Method: "get", ToolMode: "all", Scripts: []string{"", "22C42224C2"}, NMsg: 20, Seed: 5, MaxInFl: 1}},
+		{Name: "ack-fixed-http-all-get-partial-3", Mode: "ack", Ack: &ackIn{Tool: "nsq_to_http", Method: "get", ToolMode: "all", Scripts: []string{"22422", "2C25", "C2B2C"}, NMsg: 16, Seed: 6, MaxInFl: 5}},
+		{Name: "ack-fixed-http-all-post-partial", Mode: "ack", Ack: &ackIn{Tool: "nsq_to_http", Method: "post", ToolMode: "all", Scripts: []string{"2222C2", "25B2", "2C3"}, NMsg: 14, Seed: 7, MaxInFl: 200}},
 	}
 }
 
